@@ -786,3 +786,43 @@ func TestVfReplayC12(t *testing.T) {
 		t.Fatalf("C12 violated: target %s: %v", c.Target, err)
 	}
 }
+
+// FuzzVfC12: native coverage-guided fuzzing of the same targets (thorough tier).
+// The first byte selects the target; the corpus is seeded with the valid inputs.
+func FuzzVfC12(f *testing.F) {
+	w, err := vfC12setup()
+	if err != nil {
+		f.Fatalf("harness: %v", err)
+	}
+	only := os.Getenv("VERIF_C12_TARGET")
+	for i := range vfC12Targets {
+		tg := &vfC12Targets[i]
+		if only != "" && tg.name != only {
+			continue
+		}
+		for _, s := range tg.seeds(w) {
+			if len(s) <= 64<<10 {
+				f.Add(byte(i), s)
+			} else {
+				f.Add(byte(i), s[:4096])
+			}
+		}
+		f.Add(byte(i), []byte{})
+		f.Add(byte(i), []byte{0xff, 0xff, 0xff, 0xff, 0xff, 0xff, 0xff, 0xff, 0x7f})
+	}
+	run := vfh.Begin("C12", "fuzz")
+	f.Fuzz(func(t *testing.T, sel byte, data []byte) {
+		tg := &vfC12Targets[int(sel)%len(vfC12Targets)]
+		if only != "" {
+			tg = vfC12target(only)
+		}
+		if len(data) > 1<<20 {
+			return
+		}
+		if _, err := vfC12exec(w, tg, data); err != nil {
+			c := &vfC12Case{Target: tg.name, Data: append([]byte{}, data...), How: "native-fuzz"}
+			run.DumpReplay(c, err.Error())
+			t.Fatalf("C12 violated: target %s (%d bytes): %v", tg.name, len(data), err)
+		}
+	})
+}
